@@ -10,6 +10,9 @@
 //               XTA  a=newxta            parse_XTA(buf, Document*, newxta)
 //               BLK  a=newxta b=part     parse_XTA(buf, DocumentBuilder*, newxta, part, "/blk")         on a fresh Document
 //               THR  a=newxta b=part     the same with a builder whose expr_nat(424242) throws std::runtime_error
+//               EHT  a=newxta b=part     the same with a builder whose handle_error rethrows (what UTAP::PrettyPrinter does): the
+//                                        parser is left at the point of the first diagnostic
+//               PPR  a=newxta b=part     parse_XTA(buf, PrettyPrinter*, newxta, part, "/blk")
 //               QRY  a=0                 parseProperty(buf, builder) after building a fixed small system into a fresh Document
 //               TFI  a=newxta            parse_XTA(FILE*, Document*, newxta)   (flex reads the file through its own buffer)
 //               XFI  a=newxta            parse_XML_file(path, Document*, newxta)
@@ -18,6 +21,7 @@
 // canonical document dump, the supported-methods verdict.  Absolute positions never appear.
 #include "common.hpp"
 #include "libparser.h"
+#include "utap/prettyprinter.h"
 
 #include <sys/wait.h>
 #include <unistd.h>
@@ -70,6 +74,13 @@ public:
     }
 };
 
+class ErrorThrowingBuilder : public DocumentBuilder
+{
+public:
+    explicit ErrorThrowingBuilder(Document& d): DocumentBuilder{d} {}
+    void handle_error(const TypeException& e) override { throw e; }
+};
+
 static const char* QRY_SYSTEM =
     "int v; clock x; chan c;\nprocess P() { state A, B; init A; trans A -> B { guard x >= 1; assign v = 1; }; }\nsystem P;";
 
@@ -93,6 +104,13 @@ static std::string runCall(const std::string& kind, int a, int b, const std::str
         } else if (kind == "THR") {
             ThrowingBuilder builder(doc);
             rc = parse_XTA(input.c_str(), &builder, a != 0, (xta_part_t)b, "/blk");
+        } else if (kind == "EHT") {
+            ErrorThrowingBuilder builder(doc);
+            rc = parse_XTA(input.c_str(), &builder, a != 0, (xta_part_t)b, "/blk");
+        } else if (kind == "PPR") {
+            std::ostringstream sink;
+            PrettyPrinter pp(sink);
+            rc = parse_XTA(input.c_str(), &pp, a != 0, (xta_part_t)b, "/blk");
         } else if (kind == "TFI") {
             FILE* f = tmpfile();
             if (!f) return "{\"bad-tmpfile\":true}";
